@@ -4,6 +4,9 @@ RULE = ("random worlds x histories (see C05) with runs cut at the k-th operation
         "file-backed stores: a 3-call plan with Json/Text/Pickle/Binary stores, os._exit before/after EVERY file operation of the run (fresh state and after a source update), then the repairing run")
 TRUSTED_BASE = ["harness/cache_corr.py worlds and fault injection", "harness/c11_common.Injector (file-operation counting, os._exit in a forked child)"]
 def run(ctx):
+    import cache_files
+    # a value written completely is not recomputed by the next run: also when it is REwritten (with the same or another content)
+    cache_files.rebuild_then_repeat(ctx, lambda key, what, replay: ctx.fail(key, what, replay))
     failing_sibling_write_in_flight(ctx)
     mounted_streaming_write_fails(ctx)
     camp = cache_corr.Campaign(ctx)
